@@ -5,5 +5,6 @@ CONSTANTS
   BigDepths = {36, 50, 64}
   MaxZ = 9
   GridDepths = {33, 35, 36, 37, 48, 50, 64, 96, 128}
+  NearDepths = {4, 5, 6, 7, 8, 16, 36}
 INVARIANTS GridDelay ConvDelay TapRange ResetInit RingOK IdxLaw KernelForm SilentOut
 CHECK_DEADLOCK FALSE
